@@ -510,8 +510,6 @@ def main(prop_id, tier, replay=None, only=None):
     if harness:
         for h in harness[:1]:
             print(f"sub-check {h['sub']}: harness error\n{h['detail']}")
-            if h.get("case") is not None:
-                print("case:", json.dumps(abbreviate(h["case"]), default=str)[:2000])
         print(f"HARNESS-ERROR property={prop_id}")
         return 2
     if failures:
